@@ -263,37 +263,43 @@ def do_check(prop, tier, args):
                 break
     # triage failures: minimise distinct classes
     classes = {}
-    for (s, cfg, ops, vio, how) in sorted(agg.failures,
-                                          key=lambda x: (len(x[2]), x[0])):
+    for (s, cfg, ops, vio, how) in sorted(
+            agg.failures,
+            key=lambda x: (bool(x[1].get("triggers")), len(x[2]), x[0])):
         key = (vio["property"], vio["oracle"])
         classes.setdefault(key, []).append((s, cfg, ops, vio, how))
     from .minimise import minimise
     n_known = 0
     for key, items in sorted(classes.items()):
-        s, cfg, ops, vio, how = items[0]
-        mcfg, mops, ntests = minimise(prop, cfg, ops, key, how,
-                                      budget_s=25.0)
-        r = runner.evaluate(prop, mcfg, mops, how)
-        if r.violation is None:
-            mcfg, mops = cfg, ops
+        # a class may mix a known finding with something new: look at
+        # several members (runs without known triggers first) until one is
+        # not attributable to a known finding
+        for (s, cfg, ops, vio, how) in items[:6]:
+            mcfg, mops, ntests = minimise(prop, cfg, ops, key, how,
+                                          budget_s=25.0)
             r = runner.evaluate(prop, mcfg, mops, how)
-        if r.violation is None:
-            agg.harness.append((s, "violation did not reproduce in-process"))
-            continue
-        kf = known.match(findings, r.violation, mcfg, mops)
-        if kf is not None:
-            n_known += 1
-            line = "KNOWN-FINDING: property=%s %s (%s)" % (
-                prop, kf["what"], kf["id"])
-            if line not in known_lines:
-                known_lines.append(line)
-            continue
-        path = write_replay(prop, s, mcfg, mops, r.violation, how)
-        if not fresh_replay(path):
-            agg.harness.append((s, "replay %s did not reproduce in a fresh "
-                                "interpreter" % path))
-            continue
-        violations.append((path, r.violation))
+            if r.violation is None:
+                mcfg, mops = cfg, ops
+                r = runner.evaluate(prop, mcfg, mops, how)
+            if r.violation is None:
+                agg.harness.append((s, "violation did not reproduce "
+                                    "in-process"))
+                break
+            kf = known.match(findings, r.violation, mcfg, mops)
+            if kf is not None:
+                n_known += 1
+                line = "KNOWN-FINDING: property=%s %s (%s)" % (
+                    prop, kf["what"], kf["id"])
+                if line not in known_lines:
+                    known_lines.append(line)
+                continue
+            path = write_replay(prop, s, mcfg, mops, r.violation, how)
+            if not fresh_replay(path):
+                agg.harness.append((s, "replay %s did not reproduce in a "
+                                    "fresh interpreter" % path))
+                break
+            violations.append((path, r.violation))
+            break
     wall = time.time() - t0
     write_evidence(prop, tier, seed, agg, wall, len(violations), reg_n,
                    n_known, base)
